@@ -878,6 +878,8 @@ var (
 	reDashRange       = regexp.MustCompile(`\[.*(.--|--.|.-.-.).*\]`)
 )
 
+var reOneCharWrap = regexp.MustCompile(`\(\?:([a-zA-Z0-9 ])\)|\[([a-zA-Z0-9 ])\]`)
+
 var reSingleRuneAlt = regexp.MustCompile(`(?:^|\(|\(\?[a-zA-Z-]*:|\(\?P?<[^>]*>)((?:[^|()\\]\|)+[^|()\\])(?:\)|$)`)
 
 // singleRuneAlt: the branches of some x|y|z with one rune per branch (whole pattern or a whole group)
@@ -965,7 +967,9 @@ func classify(pat, rw string, d *diff) string {
 			}
 		}
 	}
-	for _, m := range reLitAlt.FindAllStringSubmatch(pat, -1) {
+	// what the first pass makes of the pattern before the second pass factors it: `x{1}` => x, `(?:x)` => x, `[x]` => x
+	litPat := reOneCharWrap.ReplaceAllString(strings.ReplaceAll(pat, "{1}", ""), "$1$2")
+	for _, m := range reLitAlt.FindAllStringSubmatch(litPat, -1) {
 		// the first branch is a suffix of m[1] (group syntax such as "i:" or "<q>" may precede it)
 		rs := []rune(m[1])
 		for k := 0; k+2 <= len(rs); k++ {
@@ -1102,6 +1106,12 @@ func Run(tier string, seed int64, outDir string) *common.Meta {
 	pats, srcOf, dist := generatePatterns(tier, seed)
 	meta.Distribution["patterns_by_stream"] = dist
 	meta.Distribution["patterns"] = len(pats)
+	meta.Distribution["patterns_reaching_each_rule"] = lastRuleHits
+	meta.Distribution["rules_and_guards_tracked"] = len(ruleInstances)
+	if lastRulesBelowQuota == nil {
+		lastRulesBelowQuota = []string{}
+	}
+	meta.Distribution["rules_below_quota"] = lastRulesBelowQuota
 
 	// 2. the real checker
 	rewrites, err := r.batch(pats)
@@ -1614,6 +1624,7 @@ var corpus = []string{
 	`(|a)*`, `(|a)+`, `(a*)*b`, `(a*)+b`, `(a|b*)*c`, `(?:a*|b)*?c`, `(a??)*b`, `^a$|\bb\B`, `(?m)^a$`, `\Qa.b\E+`,
 	`a{2,3}?b`, `(a){2}`, `(a)|b`, `(?P<n>a)(b)?`, `[^a]`, `[a-c]`, `[a-a]`, `[a-b]`, `x\&y`, `\.\.`, `a    b`,
 	`^[0-9]+(\.[0-9]+)?$`, `[[:alpha:]][[:alnum:]]*x{0,1}`, `(a|b|c)[0-9][0-9]*`, `(?U:abc|ab)`, `(?U)xab|ab`, `aa|aaa`, `aaa|aa`, `❤❤|❤❤❤`, `xx|xxx`, `(?i:a)[b]`, `(?s:.)\.\.`, `(|a)*b{1}`, `a|`, `(?:s*?b*)(?:s*?b*)*`, `s(?i){0}`, `\0{1}0`, `[a-b-*]`, `(?:❤x|❤xb)`,
+	`a{[2]}`, `a{2\,3}`, `a{(?:2)}`, `a{2{1}}`, `[a-a-z]`, `fo|fo❤`, `hb|hhb`, `(?i:hb|Hhb)`,
 	`(?i:aA|aaA)`, `(?i:ab|Aab)`, `(?i:aA|aaA)x`, `(foo|fo)`, `(?P<n>xfo|fo)b{1}`, `(fo|xfo)(?:a)`, `(a)(?:b)(?:b)*`, `((a)|b{1,})[c]`, `(?i:[k]b{1,})(c)   `, `(?s:.{0,1}a)\.`, `(?i)(a|b|c)x{1}`, `(?m:^[a]$)`, `(?U:a{1,}b)`,
 	`(?:a*b*)*c`, `(a*?)*b`, `(?:a?)*?b`, `((a*)+)+`, `(a*|b)+?c`, `(a??b??)*c`, `(?:(a)|b*)*c`, `(a*){2,3}b`, `(a*){2,}b`, `(a?){3}`,
 	`(a|){2,}?b`, `(?:a|(b))+`, `(?:(a)|(b))*`, `(a)*?(b)??`, `(?i)k+|ſ`, `(?i)[^k]`, `(?i)\W`, `(?s).\n`, `(?m)^$`, `(?U)a+?`, `(?U:a*)a`,
@@ -1781,6 +1792,14 @@ func (g *gen) re(d int) string {
 		// prefix/suffix pairs
 		x := g.literal()
 		c := g.pick(g.alpha)
+		if g.r.Intn(4) == 0 {
+			// the same literal in another letter case (matters under (?i))
+			x2 := strings.ToUpper(x)
+			if g.r.Intn(2) == 0 {
+				return x + "|" + c + x2
+			}
+			return x + "|" + x2 + c
+		}
 		switch g.r.Intn(4) {
 		case 0:
 			return x + "|" + x + c
@@ -1803,6 +1822,11 @@ func (g *gen) re(d int) string {
 
 var metaTokens = []string{"a", "b", "c", "-", "]", "[", "{", "}", "(", ")", "|", "*", "+", "?", ".", "^", "$", `\`, ",", ":", "0", "1", "2",
 	"{1}", "{0}", "{1,2}", "{0,1}", "(?:", "[:", ":]", `\0`, `\,`, `\:`, "❤", " ", "x", "[^", "(?i)", "??", "*?", `\.`, `\]`}
+
+var (
+	lastRuleHits        map[string]int
+	lastRulesBelowQuota []string
+)
 
 func generatePatterns(tier string, seed int64) ([]string, []string, map[string]int) {
 	thorough := tier == "thorough"
@@ -1913,6 +1937,64 @@ func generatePatterns(tier string, seed int64) ([]string, []string, map[string]i
 			n++
 		}
 	}
+	// every rewrite rule (and every guard that blocks one) reached by a quota of patterns: one small instance of the
+	// rule, alone and inside varying contexts (captures, flag groups, anchors, alternation, quantified neighbours)
+	rp := syntax.NewParser(&syntax.ParserOptions{NoLiterals: true})
+	hitsOf := func(p string) map[string]int {
+		h := map[string]int{}
+		if re, err := rp.Parse(p); err == nil {
+			ruleHits(re.Expr, h)
+		}
+		return h
+	}
+	{
+		rr := common.NewRand(seed, "c11-rules")
+		quota := 6 * scale
+		var names []string
+		for name := range ruleInstances {
+			names = append(names, name)
+		}
+		sort.Strings(names)
+		pre := []string{"", "", "a", "^", "x", `\d`, "(b)", "(?i)", "b|", "(?:b)?", "k+?"}
+		post := []string{"", "", "b", "$", "x*", `\.`, "(c)", "|b", "c??", "s{2,3}?"}
+		encl := []string{"%s", "%s", "(%s)", "(?:%s)", "(?i:%s)", "(?P<n>%s)", "(?s:%s)x", "(?U:%s)", "(%s)|b", "^(?:%s)$", "(?m:^%s$)", "((%s))*?"}
+		for _, name := range names {
+			inst := ruleInstances[name]
+			for n, tries := 0, 0; n < quota && tries < 300; tries++ {
+				p := inst[rr.Intn(len(inst))]
+				if tries >= len(inst) {
+					p = pre[rr.Intn(len(pre))] + fmt.Sprintf(encl[rr.Intn(len(encl))], p) + post[rr.Intn(len(post))]
+				} else {
+					p = inst[tries]
+				}
+				if hitsOf(p)[name] == 0 {
+					continue
+				}
+				if add(p, "rules") {
+					n++
+				}
+			}
+		}
+	}
+	// captures + alternation + anchors + non-greedy + flags, combined, close to the 60-byte limit
+	{
+		cr := common.NewRand(seed, "c11-combo")
+		pieces := []string{"(a|b)", "(?P<n>ab|c)", "^", "$", "a+?", "b*?", "(?:x|yz)??", "(?i:ab)", "(?s:.)", "(?U:a+)", "(?i)", "(?m:^a$)", "[a-c]", "[0-9]",
+			`\d{1,}`, "x{0,1}?", "(foo|fo)", "(fo|xfo)", "(a)(?:b)(?:b)*", "   ", `\.`, "(a{1})", "(?:[ab])", "(?:(a)|b)+?", "a{2,3}?", `\bfoo\b`, "(?i:k)",
+			"[[:alpha:]]", "aaaaa", "(?P<q>x)*?", "|", "(?:ab|abc)", "(x)|(y)", `[^\s]`, "(?i:aB|cab)", "(?:a){1,}?", `\/`, "(?s:a.{0,}?)", "(b|)c"}
+		for n, tries := 0, 0; n < 80*scale && tries < 20000*scale; tries++ {
+			var b strings.Builder
+			for b.Len() < 46+cr.Intn(12) {
+				b.WriteString(pieces[cr.Intn(len(pieces))])
+			}
+			if b.Len() > 60 {
+				continue
+			}
+			if add(b.String(), "combo") {
+				n++
+			}
+		}
+	}
 	// patterns at the checker's length limit that share a long, escape-heavy prefix and differ only near the
 	// end, derived from the patterns generated so far and placed next to each other in the same file
 	pr := common.NewRand(seed, "c11-limit")
@@ -1951,5 +2033,19 @@ func generatePatterns(tier string, seed int64) ([]string, []string, map[string]i
 		add(stem+s2, "limit")
 		n++
 	}
+	// measured: how many patterns reach each rule
+	lastRuleHits = map[string]int{}
+	for _, p := range pats {
+		for name := range hitsOf(p) {
+			lastRuleHits[name]++
+		}
+	}
+	lastRulesBelowQuota = nil
+	for name := range ruleInstances {
+		if lastRuleHits[name] < 6*scale {
+			lastRulesBelowQuota = append(lastRulesBelowQuota, name)
+		}
+	}
+	sort.Strings(lastRulesBelowQuota)
 	return pats, src, dist
 }
